@@ -2,17 +2,42 @@ package main
 
 import (
 	"context"
+	"runtime/debug"
+	"sync"
 	"testing"
 	"time"
+
+	"github.com/brimdata/super/zbuf"
 )
 
-func TestBench(t *testing.T) {
-	in := "{a:1,b:0}\n{a:0,b:1}\n{a:2,b:2}\n"
-	for _, p := range []string{"where a>0", "sort a | head 1", "fork (=> pass => pass) | sort a", "count() by a"} {
-		t0 := time.Now()
-		for i := 0; i < 200; i++ {
-			runProgram(context.Background(), p, runOpts{NoOptimize: i%2 == 0}, in)
-		}
-		t.Logf("%-40s %v per run", p, time.Since(t0)/200)
+func benchPar(t *testing.T, label string, workers int) {
+	in := "{a:1,b:0}\n{a:0,b:1}\n{a:2,b:2}\n{a:0,b:2}\n"
+	progs := []string{"where a>0", "sort a | head 1", "fork (=> pass => pass) | sort a", "count() by a", "fork (=> sort a => sort a) | join on a=a c:=b"}
+	t0 := time.Now()
+	var wg sync.WaitGroup
+	n := 2000
+	ch := make(chan int, n)
+	for i := 0; i < n; i++ {
+		ch <- i
 	}
+	close(ch)
+	for w := 0; w < workers; w++ {
+		wg.Add(1)
+		go func() {
+			defer wg.Done()
+			for i := range ch {
+				runProgram(context.Background(), progs[i%len(progs)], runOpts{NoOptimize: i%2 == 0}, in)
+			}
+		}()
+	}
+	wg.Wait()
+	t.Logf("%s workers=%d: %v per run (wall/n)", label, workers, time.Since(t0)/time.Duration(n))
+}
+
+func TestBench(t *testing.T) {
+	zbuf.PullerBatchValues = 1
+	debug.SetGCPercent(400)
+	benchPar(t, "gc400", 1)
+	benchPar(t, "gc400", 16)
+	benchPar(t, "gc400", 64)
 }
